@@ -417,13 +417,12 @@ def oracle_op(op, viol):
             bad("ansi_escape", "other character changed", f"{r!r}")
     elif k == "hesc":
         r = html_escape(op[1])
-        import html as _html
-        if any(c in r for c in '<>"') or re.search(r"&(?!amp;|lt;|gt;|quot;)", r):
+        if any(c in r for c in "<>\"'\r") or re.search(r"&(?!amp;|lt;|gt;|quot;|#39;|#13;)", r) \
+                or XML_ILLEGAL.search(r):
             bad("html_escape", "metacharacter left", f"{r!r}")
-        if _html.unescape(r.replace("&amp;", "&amp;amp;")) != op[1].replace("&", "&amp;"):
-            pass
-        back = r.replace("&lt;", "<").replace("&gt;", ">").replace("&quot;", '"').replace("&amp;", "&")
-        if back != op[1]:
+        import html as _html
+        want = XML_ILLEGAL.sub("?", op[1])
+        if _html.unescape(r) != want:
             bad("html_escape", "round trip", f"{r!r} does not decode to the value")
     elif k in ("split", "explode", "text", "len", "width"):
         frags = [tuple(f) for f in op[1]]
@@ -495,9 +494,28 @@ def oracle_op(op, viol):
 XML_ILLEGAL = re.compile("[^\t\n\r\x20-\ud7ff\ue000-\ufffd\U00010000-\U0010ffff]")
 
 
+def html_cells(h):
+    return [(st, c) for st, tx in to_formatted_text(h) for c in tx]
+
+
 def oracle_html(op, viol):
+    import html as _html
+    import xml.etree.ElementTree as ET
     k = op[0]
     if k == "html":
+        # markup -> fragments -> plain text keeps the character data, in order (reference: a
+        # different DOM builder)
+        try:
+            h = HTML(op[1])
+        except Exception:
+            return
+        try:
+            want = "".join(ET.fromstring("<r>" + op[1] + "</r>").itertext())
+        except Exception:
+            return
+        if to_plain_text(h) != want:
+            viol.append({"signature": "HTML.__init__ | character data",
+                         "msg": f"plain text {to_plain_text(h)!r} != character data {want!r}: op={op!r}"})
         return
     items = op[1]
     vals = [op[2]] if k.endswith("1") else list(op[2])
@@ -515,62 +533,110 @@ def oracle_html(op, viol):
         picks = [i if i is not None else n for n, i in enumerate(idxs)]
         if any(p >= len(vals) for p in picks):
             return
-    # the template with a private-use sentinel in every hole shows where (and in which style) each
-    # hole sits; holes that do not surface as text (inside a tag / attribute) are not claimed
-    sent = [chr(0xE000 + i) for i in range(len(holes))]
-    tmpl = op_template(op)
-    try:
-        if percent:
-            probe = HTML(tmpl % tuple(sent))
-        else:
-            n = 0
-            parts = []
-            for it in items:
-                if it[0] == "lit":
-                    parts.append(it[1])
-                else:
-                    parts.append(sent[n])
-                    n += 1
-            probe = HTML("".join(parts))
-    except Exception:
-        return      # the template itself is not well-formed
-    pf = explode_py([(f[0], f[1], None) for f in to_formatted_text(probe)])
-    if sorted(c for _, c, _ in pf if c in sent) != sorted(sent):
-        return
     used = [vals[p] for p in picks]
+
+    def fill(subst):
+        n = 0
+        parts = []
+        for it in items:
+            if it[0] == "lit":
+                parts.append(it[1])
+            else:
+                parts.append(subst(n, it))
+                n += 1
+        return "".join(parts)
+
     try:
-        got = explode_py([(f[0], f[1], None) for f in run_op(op)])
+        HTML(op_template(op))
+    except Exception:
+        return      # the template itself is not acceptable: nothing is claimed
+    wp = percent and any((holes[i][2] or "").strip("-") and html_escape(used[i]) != used[i]
+                         for i in range(len(holes)))
+
+    # template-dependent corners: the literal text right before / after a hole
+    lit_before, lit_after = [], []
+    for j, it in enumerate(items):
+        if it[0] == "hole":
+            lit_before.append(items[j - 1][1] if j > 0 and items[j - 1][0] == "lit" else "")
+            lit_after.append(items[j + 1][1] if j + 1 < len(items) and items[j + 1][0] == "lit" else "")
+
+    def classify(default, raised=False):
+        joined = fill(lambda n, it: py_format_value(used[n], it[2], percent).replace(">", ""))
+        if "]]>" in joined and any("]" in v for v in used + [""]) and raised:
+            return "HTML.format | value ending in ] before a literal >"
+        for i in range(len(holes)):
+            e = py_format_value(used[i], holes[i][2], percent)
+            if lit_before[i].endswith("\r") and e.startswith("\n"):
+                return "HTML.format | literal CR before the hole merges with a leading LF of the value"
+        if wp:
+            return "HTML.__mod__ | width or precision counts the escaped characters"
+        if raised and any(XML_ILLEGAL.search(v) for v in used):
+            return "HTML.format | XML-illegal character in value"
+        return default
+
+    sent = [chr(0xE000 + i) for i in range(len(holes))]
+    try:
+        pf = html_cells(HTML(fill(lambda n, it: sent[n])))
+        text_holes = sorted(c for _, c in pf if c in sent) == sorted(sent)
+    except Exception:
+        pf, text_holes = None, False
+
+    # reference: format first, then escape with the standard library (both kinds of quotes), CR as
+    # a character reference, characters XML cannot carry replaced
+    def ref_piece(n, it):
+        t = XML_ILLEGAL.sub("?", py_format_value(used[n], it[2], percent))
+        return _html.escape(t, quote=True).replace("\r", "&#13;")
+
+    try:
+        ideal = html_cells(HTML(fill(ref_piece)))
+        ideal_exc = None
     except Exception as e:
-        if any(XML_ILLEGAL.search(v) for v in used) and type(e).__name__ == "ExpatError":
-            viol.append({"signature": "HTML.format | XML-illegal character in value",
-                         "msg": f"{site}: {type(e).__name__}: {e} op={op!r}"})
-        else:
-            viol.append({"signature": f"{site} | raises", "msg": f"{type(e).__name__}: {e} op={op!r}"})
+        ideal, ideal_exc = None, type(e).__name__
+    try:
+        got = html_cells(_run_html(op))
+    except Exception as e:
+        name = type(e).__name__
+        if name != ideal_exc or text_holes:
+            viol.append({"signature": classify(f"{site} | raises", True), "msg": f"{name}: {e} op={op!r}"})
+        return
+    if ideal_exc is not None:
+        viol.append({"signature": classify(f"{site} | value not inert"),
+                     "msg": f"reference raises {ideal_exc}, real code returns {got!r}: op={op!r}"})
+        return
+    if got != ideal:
+        sig = f"{site} | value not inert"
+        crn = [(st, "\n" if c == "\r" else c) for st, c in ideal]
+        if any("\r" in v for v in used) and [f for f in crn] == [(st, c) for st, c in got] + [] and got != ideal:
+            sig = "HTML.format | carriage return in value becomes newline"
+        elif any("'" in v for v in used):
+            sig = "HTML.format | apostrophe in value closes a single-quoted attribute"
+        viol.append({"signature": classify(sig), "msg": f"{site}: op={op!r} got={got!r} reference={ideal!r}"})
+        return
+    # independent of any escaper: with a private-use sentinel in every hole the template shows
+    # where (and in which style) each hole sits; if all holes surface as text, the result must be
+    # that output with the value's characters in place of the sentinel
+    if not text_holes or wp:
         return
     expected = []
-    for st, c, h in pf:
+    for st, c in pf:
         if c in sent:
             i = sent.index(c)
-            spec = holes[i][2]
-            v = used[i]
-            e = py_format_value(v, spec, percent)
-            expected += [(st, ch, None) for ch in e]
+            e = XML_ILLEGAL.sub("?", py_format_value(used[i], holes[i][2], percent))
+            expected += [(st, ch) for ch in e]
         else:
-            expected.append((st, c, h))
+            expected.append((st, c))
     if got != expected:
-        norm = [(st, "\n" if c == "\r" else c, h) for st, c, h in expected]
-        # "\r\n" -> "\n"
-        norm2 = []
-        for i, f in enumerate(expected):
-            if f[1] == "\r" and i + 1 < len(expected) and expected[i + 1][1] == "\n":
-                continue
-            norm2.append((f[0], "\n" if f[1] == "\r" else f[1], f[2]))
-        if any("\r" in v for v in used) and (got == norm or got == norm2):
-            viol.append({"signature": "HTML.format | carriage return in value becomes newline",
-                         "msg": f"{site}: op={op!r} got={got!r}"})
-        else:
-            viol.append({"signature": f"{site} | value not inert",
-                         "msg": f"op={op!r} got={got!r} expected={expected!r}"})
+        viol.append({"signature": classify(f"{site} | value not inert"),
+                     "msg": f"op={op!r} got={got!r} expected={expected!r}"})
+
+
+def _run_html(op):
+    k = op[0]
+    if k == "hfmt":
+        return HTML(op_template(op)).format(*op[2])
+    if k == "hmod":
+        return HTML(op_template(op)) % tuple(op[2])
+    return HTML(op_template(op)) % op[2]
 
 
 def oracle(case):
@@ -670,6 +736,105 @@ def rand_template(rng, specs, allow_incomplete=True, explicit=False):
                 items.append(["lit", lit])
     return items, nholes
 
+
+# ---- HTML
+HTML_ALPHA = ["<", ">", "/", "b", "=", '"', "'", " ", "&", ";", "a", "]"]
+HTML_VALUE_ALPHA = ["a", " ", "<", ">", "&", '"', "'", "\r", "\n", "]", ESC, "\x00", "{", "%", ";", "#"]
+HTML_NAMES = ["b", "i", "u", "style", "html-root", "username", "x-1.y_z"]
+HTML_TEXTS = ["a", "b c", "&amp;", "&lt;x&gt;", "]]", ">", "'", '"', "\n", "\r\n", "\r", "\u4e16", "&#65;", "&#x41;",
+              "&apos;&quot;", "{", "}", "%", "\t", "&#13;", "&#39;"]
+HTML_ATTR_VALUES = ["ansired", "#ff0000", "", "a b", "x&amp;y", "a'b", 'a"b', "a\tb", "a>b", "&#10;", "]]>"]
+
+
+def html_element(rng, depth, hole_factory):
+    """markup pieces (strings) and holes of one element"""
+    name = rng.choice(HTML_NAMES)
+    out = ["<" + name]
+    keys = rng.sample(["fg", "bg", "color", "other"], rng.randrange(0, 3))
+    for k in keys:
+        q = rng.choice(['"', "'"])
+        out.append(" " * rng.choice([1, 1, 1, 2]) + k + rng.choice(["=", "=", " = "]) + q)
+        if hole_factory is not None and rng.random() < 0.3:
+            out.append(hole_factory())
+        else:
+            v = rng.choice(HTML_ATTR_VALUES)
+            if q in v:
+                v = v.replace(q, "")
+            out.append(v)
+        out.append(q)
+    if rng.random() < 0.15:
+        out.append(rng.choice(["/>", " />"]))
+        return out
+    out.append(rng.choice([">", ">", " >"]))
+    out += html_content(rng, depth + 1, hole_factory)
+    out.append("</" + name + rng.choice([">", ">", " >"]))
+    return out
+
+
+def html_content(rng, depth, hole_factory):
+    out = []
+    for _ in range(rng.randrange(0, 4 if depth < 3 else 2)):
+        r = rng.random()
+        if r < 0.45:
+            out.append(rng.choice(HTML_TEXTS))
+        elif r < 0.65 and hole_factory is not None:
+            out.append(hole_factory())
+        elif depth < 3:
+            out += html_element(rng, depth, hole_factory)
+    return out
+
+
+def rand_html_string(rng):
+    s = "".join(html_content(rng, 0, None))
+    if rng.random() < 0.25 and s:
+        # damage it: delete / insert / replace one character
+        i = rng.randrange(len(s))
+        s = s[:i] + rng.choice(["", rng.choice(HTML_ALPHA), rng.choice(HTML_ALPHA) + s[i]]) + s[i + 1:]
+    return s
+
+
+def rand_html_template(rng, specs, explicit=False):
+    """items of a format / % template whose literal parts are HTML markup"""
+    holes = []
+
+    def hole():
+        idx = rng.randrange(0, 3) if explicit else None
+        h = ["hole", idx, rng.choice(specs)]
+        holes.append(h)
+        return h
+
+    pieces = html_content(rng, 0, hole)
+    if not any(isinstance(p, list) for p in pieces):
+        pieces.append(hole())
+    items = []
+    for p in pieces:
+        if isinstance(p, list):
+            items.append(p)
+        elif items and items[-1][0] == "lit":
+            items[-1][1] += p
+        else:
+            items.append(["lit", p])
+    return items, len(holes)
+
+
+HTML_FORMAT_SPECS = [None, None, "", "s", "5", ">4", "^5", "*>3", ".1", "6.2", "x^4.1s", ">", "<"]
+HTML_FMT_POOL = [
+    [["hole", None, None]],
+    [["lit", "<b>x"], ["hole", None, None], ["lit", "y</b>z"]],
+    [["lit", '<style fg="ansired">'], ["hole", None, ">3"], ["lit", "</style><u>"], ["hole", None, None], ["lit", "</u>"]],
+    [["lit", "<style fg='"], ["hole", None, None], ["lit", "'>x</style>"]],          # single-quoted attribute
+    [["lit", '<style bg="'], ["hole", None, None], ["lit", '">x</style>']],          # double-quoted attribute
+    [["lit", "<i>a]"], ["hole", None, None], ["lit", "&gt;</i>"]],
+    [["lit", "<"], ["hole", None, None], ["lit", ">x</b>"]],                          # hole as tag name
+    [["lit", "a"], ["hole", None, None], ["lit", ">b"]],                              # value ]] + literal >
+    [["lit", "x\r"], ["hole", None, None], ["lit", "y"]],                             # literal CR + value LF
+]
+HTML_MOD_POOL = [
+    [["hole", None, None]],
+    [["lit", "<b>x"], ["hole", None, None], ["lit", "y</b>z"]],
+    [["lit", "<style color='"], ["hole", None, None], ["lit", "'>x</style>"], ["hole", None, "-3"]],
+    [["lit", "<i>100%"], ["hole", None, ".2"], ["lit", "</i>"]],
+]
 
 STYLES = ["", "b", "[ZeroWidthEscape]", "class:x [ZeroWidthEscape]"]
 FRAG_TEXT_ALPHA = ["a", "\n", "世"]
@@ -783,6 +948,35 @@ def cases(tier, rng):
         ops.append(["amod", [[it[0], None, None] if it[0] == "hole" else it for it in t], vs])
     yield from chunked(ops, 100)
 
+    # ---- 2b. HTML: every string over a 12-symbol markup alphabet, then templates x values
+    ops = []
+    hmax = 4 if quick else 5
+    for n in range(0, hmax + 1):
+        for tup in itertools.product(HTML_ALPHA, repeat=n):
+            ops.append(["html", "".join(tup)])
+    for t in ["<b>a</b>", "<b fg='x' bg=\"y\">a<i>b</i>c</b>d", "<style fg='a b'>x</style>", "<b><i>x</b></i>",
+              "<b fg='x' fg='y'>z</b>", "a]]>b", "a]]&gt;b", "<b/>x<i></i>", "<html-root>x</html-root>",
+              "<b color='y' fg='x'>2</b>", "&#0;", "&#27;", "&#xfffe;", "&#65;&#x41;", "&amp", "&foo;", "&#;",
+              "x\ry\r\nz", "<b fg='a\r\nb'>x</b>", "<b fg='a&#10;b'>x</b>", "\x1b", "<b fg='a<b'>x</b>",
+              "<b  fg = 'x' >y</b >", "<b\nfg='x'>y</b>", "<b fg='x'bg='y'>z</b>", "<b fg>z</b>", "<b>"]:
+        ops.append(["html", t])
+    yield from chunked(ops, 200)
+    hvalues = [""]
+    for n in range(1, vmax + 1):
+        hvalues += ["".join(t) for t in itertools.product(HTML_VALUE_ALPHA, repeat=n)]
+    ops = []
+    for v in hvalues:
+        ops.append(["hesc", v])
+        for t in HTML_FMT_POOL:
+            nh = sum(1 for it in t if it[0] == "hole")
+            ops.append(["hfmt", t, [v] + ["w" + v] * (nh - 1)])
+        for t in HTML_MOD_POOL:
+            nh = sum(1 for it in t if it[0] == "hole")
+            if nh == 1:
+                ops.append(["hmod1", t, v])
+            ops.append(["hmod", t, [v] + ["w" + v] * (nh - 1)])
+    yield from chunked(ops, 100)
+
     # ---- 3. fragment utilities, exhaustive
     ops = []
     for fl in frag_lists(2 if quick else 3, 3):
@@ -812,6 +1006,15 @@ def cases(tier, rng):
         v = rand_value(rng, 10)
         ops.append(["aesc", v])
         ops.append(["hesc", v])
+        ops.append(["html", rand_html_string(rng)])
+        items, nh = rand_html_template(rng, HTML_FORMAT_SPECS, explicit=rng.random() < 0.2)
+        nvals = 3 if any(it[0] == "hole" and it[1] is not None for it in items) else nh
+        ops.append(["hfmt", items, ["".join(rng.choice(HTML_VALUE_ALPHA + ["b", "1", "\u4e16"])
+                                            for _ in range(rng.randrange(0, 5))) for _ in range(nvals)]])
+        items, nh = rand_html_template(rng, PERCENT_SPECS)
+        vals = ["".join(rng.choice(HTML_VALUE_ALPHA + ["b", "1", "\u4e16"]) for _ in range(rng.randrange(0, 5)))
+                for _ in range(nh)]
+        ops.append(["hmod1", items, vals[0]] if len(vals) == 1 and rng.random() < 0.5 else ["hmod", items, vals])
         fl = rand_frags(rng)
         ops.append([rng.choice(["split", "split", "explode", "text", "len", "width"]), fl])
         ops.append(["tft", rng.choice(["", "", "bold", "class:x y"]), rand_any(rng)])
